@@ -120,8 +120,27 @@ def _solve_cli(cmd, smt2, timeout_s, want_model=True):
 _OBLIGS = []
 
 
+def _has_quant(t, seen=None):
+    stack = [t]
+    seen = set()
+    while stack:
+        x = stack.pop()
+        i = x.get_id()
+        if i in seen:
+            continue
+        seen.add(i)
+        if z3.is_quantifier(x):
+            return True
+        stack.extend(x.children())
+    return False
+
+
 def _assertions(o):
     out = list(o.hyps)
+    if o.expect_sat:
+        # vacuity cover: satisfiability of the quantifier-free part (definitional axioms of ghost sums are
+        # conservative extensions and do not affect satisfiability)
+        out = [h for h in out if not _has_quant(h)]
     if not o.expect_sat:
         out.append(z3.Not(o.goal))
     elif o.goal is not None:
